@@ -444,7 +444,7 @@ class ScriptRunner:
                 self.log("done:%d=%s" % (f, self.r_value(kind, v[1]) if v[0] == "v" else self.r_error(v[1])))
 
     # --- user code
-    DEFAULT_ACT = {"dflt": True, "raises": False, "spec": "", "progress": [], "calls": []}
+    DEFAULT_ACT = {"dflt": True, "raises": False, "spec": "", "progress": [], "calls": [], "unconditional": False}
 
     def next_act(self):
         return self.acts.pop(0) if self.acts else dict(self.DEFAULT_ACT)
@@ -579,7 +579,9 @@ class ScriptRunner:
             self.log("ep:%d,%d,%d,%s,%s" % (req, obj, h, r_args(a), r_kwargs(kw, val)))
             act = self.next_act()
             details = next((v for v in kw.values() if isinstance(v, types.CallDetails)), None)
-            if details is not None and details.progress:
+            # two endpoint styles: `if details.progress:` (~p) and `if details.progress is not None:` (~P)
+            has = details is not None and ((details.progress is not None) if act.get("unconditional") else bool(details.progress))
+            if has:
                 self.prog_fns[req] = details.progress
                 for v in act["progress"]:
                     details.progress(v)
@@ -791,8 +793,10 @@ class ScriptRunner:
         if op == "m.invocation":
             if len(p) == 3:
                 return M.Invocation(int(p[1]), int(p[2]))
+            # the receive_progress detail: 0 absent, 1 true, f explicitly false (the only forms Invocation.parse lets
+            # through: any other wire value — 0, 1, null, a string — is a ProtocolError of the parser, C08)
             return M.Invocation(int(p[1]), int(p[2]), args=parse_args(p[3]), kwargs=parse_kwargs(p[4]),
-                                receive_progress=(p[5] == "1") or None)
+                                receive_progress={"1": True, "f": False}.get(p[5]))
         if op == "m.interrupt":
             return M.Interrupt(int(p[1]))
         raise ValueError("bad message token " + tok)
@@ -809,7 +813,7 @@ class ScriptRunner:
                 if not dflt:
                     head = head[1:]
                 assert head[:1] in ("r", "x"), "bad act " + a
-                acts.append({"dflt": dflt, "raises": head[0] == "x", "spec": head[1:],
+                acts.append({"dflt": dflt, "raises": head[0] == "x", "spec": head[1:], "unconditional": prog[:1] == "P",
                              "progress": [int(x) for x in prog[1:].split(".")] if len(prog) > 1 else [],
                              "calls": parts[1:]})
         return acts
